@@ -8,6 +8,7 @@ import (
 	"go.nanomsg.org/mangos/v3"
 	"go.nanomsg.org/mangos/v3/vh/kinds"
 	"go.nanomsg.org/mangos/v3/vh/kit"
+	"go.nanomsg.org/mangos/v3/vh/vt"
 	"go.nanomsg.org/mangos/v3/vz/vexplore"
 )
 
@@ -23,7 +24,9 @@ func init() {
 			{Name: "recv-deadline", Mode: "enum", Bound: b, Reset: kit.ResetGlobals, Body: func() { recvDeadline(false) },
 				NeedCounters: []string{"recv-timeout-exact", "recv-no-deadline-waits", "recv-immediate-ok", "recv-unsupported-op"}},
 			{Name: "recv-deadline-context", Mode: "enum", Bound: b, Reset: kit.ResetGlobals, Body: func() { recvDeadline(true) },
-				NeedCounters: []string{"recv-timeout-exact", "ctx-deadline-inherited"}},
+				NeedCounters: []string{"recv-timeout-exact", "ctx-deadline-inherited", "ctx-deadline-switched-off-beside-the-sockets", "ctx-opened-before-keeps-no-deadline"}},
+			{Name: "recv-deadline-with-peers-coming-and-going-during-the-wait", Mode: "enum", Bound: b, Reset: kit.ResetGlobals, Body: recvDeadlineEvents,
+				NeedCounters: []string{"recv-timeout-exact-after-connection-events", "carrier-of-the-request-lost-during-the-wait"}},
 			{Name: "send-deadline", Mode: "enum", Bound: b, Reset: kit.ResetGlobals, Body: func() { sendModes("deadline") },
 				NeedCounters: []string{"send-timeout-exact", "send-no-deadline-waits", "send-immediate-ok"}},
 			{Name: "send-deadline-ends-with-the-send", Mode: "enum", Bound: b, Reset: kit.ResetGlobals, Body: sendDeadlineScope,
@@ -123,8 +126,12 @@ func recvDeadline(useCtx bool) {
 		// where the pattern does so - the new context then has the socket's value, otherwise the
 		// default (no deadline); nothing else, and it behaves as it reports
 		x.PrepRecvCtxNeedsSocket()
-		viaSocket := kit.ChooseFree(2) == 1
-		if viaSocket {
+		// how: 0 = set on the context; 1 = set on the socket before the context is opened;
+		// 2 = set on the socket after the context was opened (the context reports the new value or
+		// keeps its own - and behaves as it reports); 3 = as 1, then switched off on the context
+		how := kit.ChooseFree(4)
+		viaSocket := how != 0
+		if how == 1 || how == 3 {
 			if err := x.S.SetOption(mangos.OptionRecvDeadline, d); err != nil {
 				return
 			}
@@ -133,18 +140,42 @@ func recvDeadline(useCtx bool) {
 		if err != nil {
 			kit.Failf("setup:ctx:"+k.Name, "OpenContext: %s", kit.ErrName(err))
 		}
+		if how == 2 {
+			if err := x.S.SetOption(mangos.OptionRecvDeadline, d); err != nil {
+				return
+			}
+		}
 		ep = endpoint{name: k.Name + ".ctx", set: c.SetOption,
 			recv: func() (string, error) { b, err := c.Recv(); return string(b), err },
 			send: func(b string) error { return kit.SendBytes(c, []byte(b)) }}
 		x.Ctx = c
-		if viaSocket {
+		if how == 3 {
+			if err := c.SetOption(mangos.OptionRecvDeadline, time.Duration(0)); err != nil {
+				if err == mangos.ErrBadValue {
+					return // zero is outside the range this pattern accepts
+				}
+				kit.Failf("recv-deadline-set:"+ep.name, "%s: SetOption(RecvDeadline,0): %s", ep.name, kit.ErrName(err))
+			}
+			v, err := c.GetOption(mangos.OptionRecvDeadline)
+			if g, ok := v.(time.Duration); err != nil || !ok || g != 0 {
+				kit.Failf("get-after-set:"+ep.name, "%s: RecvDeadline was set to 0 on the context, GetOption reports %v (%s)", ep.name, v, kit.ErrName(err))
+			}
+			if d > 0 {
+				kit.Count("ctx-deadline-switched-off-beside-the-sockets")
+			}
+			d = 0
+			inherited = true
+		} else if viaSocket {
 			v, err := c.GetOption(mangos.OptionRecvDeadline)
 			g, ok := v.(time.Duration)
 			if err != nil || !ok || (g != d && g != 0) {
-				kit.Failf("ctx-deadline-neither-inherited-nor-default:"+k.Name, "%s: the socket's RecvDeadline is %v; a context opened afterwards reports %v (%s): neither the socket's value nor the default", k.Name, d, v, kit.ErrName(err))
+				kit.Failf("ctx-deadline-neither-inherited-nor-default:"+k.Name, "%s: the socket's RecvDeadline is %v; a context opened %s reports %v (%s): neither the socket's value nor the default", k.Name, d, map[int]string{1: "afterwards", 2: "before"}[how], v, kit.ErrName(err))
 			}
-			if g == d {
+			if g == d && how == 1 {
 				kit.Count("ctx-deadline-inherited")
+			}
+			if g == 0 && d > 0 && how == 2 {
+				kit.Count("ctx-opened-before-keeps-no-deadline")
 			}
 			d = g
 			inherited = true
@@ -218,6 +249,114 @@ func recvDeadline(useCtx bool) {
 		kit.Count("recv-no-deadline-waits")
 	}
 	kit.Observe("%s d=%v", ep.name, d)
+	kit.Must("Close", func() { _ = x.S.Close() })
+}
+
+// recvDeadlineEvents: a Recv with a receive deadline is waiting (socket or context; REQ with its
+// default retry interval, so that a lost carrier means a re-send, not a cancellation) while peers
+// come and go: the connection that carried the request / the first peer leaves, another peer
+// leaves, a new peer connects - one or two such events at different instants before the deadline.
+// None of them is an answer: the Recv returns the timeout error exactly at its deadline.
+func recvDeadlineEvents() {
+	var ks []*kinds.Kind
+	for _, k := range kinds.All {
+		if k.CanRecv {
+			ks = append(ks, k)
+		}
+	}
+	k := ks[kit.ChooseFree(len(ks))]
+	useCtx := k.Ctx && kit.ChooseFree(2) == 1
+	d := 2 * time.Second
+	x := k.Open("c18ev", true, false)
+	_ = x.S.SetOption(mangos.OptionSurveyTime, 24*time.Hour)
+	single := k.Name == "pair" || k.Name == "pair1" || k.Name == "xpair" || k.Name == "xpair1"
+	pipes := []*vt.Pipe{x.P}
+	if !single {
+		pipes = append(pipes, x.EP.Connect())
+		kit.Quiesce()
+	}
+	ep := endpoint{name: k.Name, set: x.S.SetOption, recv: x.Recv}
+	if useCtx {
+		c, err := x.S.OpenContext()
+		if err != nil {
+			kit.Failf("setup:ctx:"+k.Name, "OpenContext: %s", kit.ErrName(err))
+		}
+		ep = endpoint{name: k.Name + ".ctx", set: c.SetOption, recv: func() (string, error) { b, err := c.Recv(); return string(b), err }}
+		x.Ctx = c
+	}
+	if err := ep.set(mangos.OptionRecvDeadline, d); err != nil {
+		if err == mangos.ErrBadOption {
+			return
+		}
+		kit.Failf("recv-deadline-set:"+ep.name, "%s: SetOption(RecvDeadline,%v): %s", ep.name, d, kit.ErrName(err))
+	}
+	x.PrepRecv()
+	carrier := 0
+	for i, p := range pipes {
+		if p.NumSent() > 0 {
+			carrier = i
+		}
+	}
+	c := kit.Start("Recv", func() (interface{}, error) { return ep.recv() })
+	kit.Quiesce()
+	if c.Done() {
+		kit.Failf("recv-returned-with-nothing:"+ep.name, "%s: Recv returned %s / %q at once although nothing can be received (deadline %v)", ep.name, kit.ErrName(c.Err), c.Val, d)
+	}
+	// one or two events, at d/4 and d/2
+	nev := 1 + kit.ChooseFree(2)
+	what := ""
+	for e := 0; e < nev; e++ {
+		kit.Sleep(d / 4)
+		kit.Quiesce()
+		var alive []int
+		for i, p := range pipes {
+			if p.Alive() {
+				alive = append(alive, i)
+			}
+		}
+		n := kit.ChooseFree(len(alive) + 1)
+		if n == len(alive) {
+			pipes = append(pipes, x.EP.Connect())
+			what += " connect"
+		} else {
+			i := alive[n]
+			pipes[i].Drop()
+			if i == carrier && k.NeedOut {
+				kit.Count("carrier-of-the-request-lost-during-the-wait")
+				what += " drop-carrier"
+				carrier = -1
+			} else {
+				what += fmt.Sprintf(" drop-p%d", i)
+			}
+		}
+		kit.Quiesce()
+		if c.Done() {
+			kit.Failf("recv-ended-by-a-connection-event:"+ep.name, "%s: Recv with deadline %v returned %s / %q after %v, when connections changed (%s) - no message had arrived", ep.name, d, kit.ErrName(c.Err), c.Val, c.T1-c.T0, what)
+		}
+		if carrier == -1 {
+			// the request was (possibly) handed to another connection
+			for i, p := range pipes {
+				if p.Alive() && p.NumSent() > 0 {
+					carrier = i
+				}
+			}
+		}
+	}
+	kit.Sleep(d - time.Duration(nev)*(d/4) - time.Nanosecond)
+	kit.Quiesce()
+	if c.Done() {
+		kit.Failf("recv-deadline-early:"+ep.name, "%s: Recv with deadline %v returned %s after only %v (connection events:%s)", ep.name, d, kit.ErrName(c.Err), c.T1-c.T0, what)
+	}
+	kit.Sleep(time.Nanosecond)
+	kit.Quiesce()
+	if !c.Done() {
+		kit.Failf("recv-deadline-late:"+ep.name, "%s: Recv with deadline %v still blocked after %v (connection events during the wait:%s)", ep.name, d, kit.Now()-c.T0, what)
+	}
+	if c.Err != mangos.ErrRecvTimeout || c.T1-c.T0 != d {
+		kit.Failf("recv-deadline-result:"+ep.name, "%s: Recv with deadline %v returned %s after %v, want ErrRecvTimeout after exactly the deadline (connection events:%s)", ep.name, d, kit.ErrName(c.Err), c.T1-c.T0, what)
+	}
+	kit.Count("recv-timeout-exact-after-connection-events")
+	kit.Observe("%s%s", ep.name, what)
 	kit.Must("Close", func() { _ = x.S.Close() })
 }
 
